@@ -69,6 +69,11 @@ def dispatch : List String → Option String
     match ofHex h, vars.mapM ofHex with
     | some _, some vs => some (if vs.all (fun v => !v.isEmpty) then "nopanic" else "any")
     | _, _ => some "bad-req"
+  | ["panic_replace", c, pat, rep, _mode] =>
+    -- regex semantics are not modelled: no claim; the check flags any panic of this op and replays it through the CLI
+    match ofHex c, ofHex pat, ofHex rep with
+    | some _, some _, some _ => some "any"
+    | _, _, _ => some "bad-req"
   | ["panic_compound", i, o, n] =>
     -- no theorem about compound_matcher: no claim (the check itself flags a panic on an extractor-shaped identifier)
     match ofHex i, ofHex o, ofHex n with
